@@ -109,12 +109,25 @@ def listed(name):
     return os.path.exists("/dev/shm/" + name.lstrip("/"))
 
 
-def replay(report, path, kind, shape, rng):
+LOADERS = {"linear": lambda p, shm: impl.countmin.CountMinLinear.load(p, shm), "log16": lambda p, shm: impl.countmin.load(p, shm),
+           "log8": lambda p, shm: impl.countmin.CountMinLog8.load(p, shm), "hll": lambda p, shm: impl.hyperloglog.HyperLogLog.load(p, shm),
+           "hh": lambda p, shm: impl.heavyhitters.HeavyHitters.load(p, shm)}
+
+
+def replay(report, path, kind, shape, rng, from_file=False):
+    """from_file: the owner is not built by the constructor but by load(..., shared_memory=True) of a
+    saved, non-empty sketch (the other documented way to obtain a shared-memory sketch)."""
     owner = None
     views = {1: None, 2: None}
     twin = new_sketch(kind, shape, False)
+    saved = None
+    if from_file:
+        for j, k in enumerate([b"seed", b"\x00", b"zz"]):
+            twin.add(k, j + 1)
+        saved = impl.tmpfile()
+        twin.save(saved)
     name = None
-    scen = {"class": kind, "shape": {k: str(v) for k, v in shape.items()}, "ops": path}
+    scen = {"class": kind, "shape": {k: str(v) for k, v in shape.items()}, "ops": path, "owner_from_file": from_file}
 
     def bad(msg, step):
         report.violation("shared-memory replay %s: step %d %s: %s" % (json.dumps(scen)[:500], step, json.dumps(path[step]), msg),
@@ -124,7 +137,7 @@ def replay(report, path, kind, shape, rng):
         for i, o in enumerate(path):
             nm = o["name"]
             if nm == "create":
-                owner = new_sketch(kind, shape, True)
+                owner = LOADERS[kind](saved, True) if from_file else new_sketch(kind, shape, True)
                 name = owner.shm.name
             elif nm == "attach":
                 try:
@@ -180,3 +193,5 @@ def replay(report, path, kind, shape, rng):
             views[k] = None
         owner = None
         gc.collect()
+        if saved and os.path.exists(saved):
+            os.unlink(saved)
